@@ -24,7 +24,7 @@ ASSUMPTIONS = ["values of the NUC/NIC/NAC/SIL tables are not compared with DO-26
                "totality, arity and monotonicity are monitored", "heading/track label polarity of target_angle is not asserted: "
                "only that it is a function of ME bit 37 taking two distinct values", "TC28 reserved emergency states 6-7 and "
                "subtype 0 with non-zero state bits are not judged for is_emergency"]
-REQUIRED = ["tc28", "mixed_supplement_types", "tc28_every_squawk_x_state", "emergency_true", "emergency_false", "v2_alt", "v2_baro", "v2_hdg_neg", "v2_hdg_none", "v2_modes_off", "v2_modes_on",
+REQUIRED = ["distinct_messages_pushed_through_by_4_threads", "tc28", "mixed_supplement_types", "tc28_every_squawk_x_state", "emergency_true", "emergency_false", "v2_alt", "v2_baro", "v2_hdg_neg", "v2_hdg_none", "v2_modes_off", "v2_modes_on",
             "v1_alt", "v1_angle", "v1_modes", "v1_tcas", "tc31", "tc19q", "lookups", "mismatch_v1_on_v2", "mismatch_v2_on_v1"]
 
 V2_ONLY = ["selected_altitude", "baro_pressure_setting", "selected_heading", "autopilot", "vnav_mode", "altitude_hold_mode",
@@ -419,13 +419,38 @@ def m_lookups(ctx, case):
     ctx.hit("lookups")
 
 
-MONITORS = {"tc28": m_tc28, "tc28grid": m_tc28grid, "v2": m_v2, "v1": m_v1, "tc31": m_tc31, "tc19q": m_tc19q, "lookups": m_lookups}
+def m_volthreads(ctx, case):
+    """far more distinct TC31 / TC29 / TC19 messages than a 17-bit bounded memo holds through the quality accessors, from 4
+    threads at once (see pmv/volume.py)"""
+    from .. import volume
+    from pyModeS import adsb
+
+    def mk(r):
+        me = (31 << 51) | (r.getrandbits(3) << 48) | r.getrandbits(48)
+        me = (me & ~(7 << 13)) | (2 << 13)            # ADS-B version 2
+        me = (me & ~(7 << 48)) | (r.randrange(2) << 48)   # subtype 0 / 1
+        return "%028X" % bits.es_frame(17, 5, r.getrandbits(24), me)
+
+    def oracle(name, msg):
+        me = (int(msg, 16) >> 24) & ((1 << 56) - 1)
+        return radsb.get(me, 41, 43) if name == "version" else radsb.get(me, 45, 48)
+
+    def nacp(m):
+        v = adsb.nac_p(m)
+        return v[0] if isinstance(v, tuple) and len(v) == 3 else v      # (NACp, EPU, VEPU): the table values are judged by monitor tc31
+    volume.run(ctx, [("version", adsb.version), ("nacp_code", nacp)], mk, oracle, total=case["total"])
+
+
+NO_OBSERVE = ("volthreads",)
+MONITORS = {"volthreads": m_volthreads, "tc28": m_tc28, "tc28grid": m_tc28grid, "v2": m_v2, "v1": m_v1, "tc31": m_tc31, "tc19q": m_tc19q, "lookups": m_lookups}
 
 
 def cases(ctx):
     quick = ctx.tier == "quick"
     reps = 3 if quick else 8
     i = 0
+    if ctx.mine(7):
+        yield "volthreads", {"total": 144000 if quick else 300000}
     for rep in range(reps * 2):
         if ctx.mine(i):
             yield "tc28", {"reps": 6}
